@@ -51,9 +51,13 @@ def observe_inst(text):
         return ("parse-reject", type(e).__name__, str(e)[:200])
     try:
         m = instantiator.instantiate_namespace(m)
+    except Exception as e:  # noqa: BLE001
+        return ("exc", type(e).__name__, str(e)[:200], traceback.format_exc()[-800:])
+    try:
         return ("ok", proj.proj_inst(m))
-    except proj.ProjectionError:
-        raise
+    except proj.ProjectionError as e:
+        # the instantiated tree has a shape no declaration can have (e.g. a type with two pointer / reference markers)
+        return ("impossible-tree", "ProjectionError", str(e)[:300])
     except Exception as e:  # noqa: BLE001
         return ("exc", type(e).__name__, str(e)[:200], traceback.format_exc()[-800:])
 
